@@ -34,7 +34,7 @@ RULE = ("random scripts N=8..40 indices; distinct = canonical script JSON; non-t
 REQUIRED_BUCKETS = ["primary-closed", "primary-raises", "primary-raises-while-fallback-in-step", "fallback-closed", "fallback-late-start", "lag:-1", "lag:0",
                     "lag:1", "lag:2", "recovery-to-primary", "both-invalid", "fallback-value-used",
                     "primary-closed-before-any-failure", "other-terms:0", "other-terms:2",
-                    "tier-B(real FallbackFormulaMetricFetcher)", "tier-B:pv-meter", "tier-B:single-grid-meter", "tier-B:single-grid-meter-reactive",
+                    "tier-B(real FallbackFormulaMetricFetcher)", "tier-B:pv-meter", "tier-B:grid-successor-meters", "tier-B:grid-successor-meters-reactive",
                     "term-with-fallback-and-nones-are-zeros"]
 REQUIRED_COUNTERS = ["outputs_decoded", "scripts_run"]
 ASSUMPTIONS = ["tier A: the fallback is a test double at the public FallbackMetricFetcher seam; tier B: real PVPowerFormula + "
@@ -68,9 +68,9 @@ def gen(rng: Any, tier: str, i: int) -> Any:
     fault = rng.choice([None, None, "close_primary", "close_primary", "raise_primary", "close_fallback"])
     if rng.random() < 0.3:
         # tier B: the real PVPowerFormula with its real FallbackFormulaMetricFetcher over a fake resampler
-        topo = rng.choice(["pv-meter", "pv-meter", "single-grid-meter", "single-grid-meter-reactive"])
+        topo = rng.choice(["pv-meter", "pv-meter", "grid-successor-meters", "grid-successor-meters-reactive"])
         return {"tier": "B", "topo": topo, "N": N, "pmask": pmask, "fmask": [True] * N, "lag": 0, "fallback_skip": 0,
-                "n_other": 1 if topo == "pv-meter" else 0,
+                "n_other": 1,
                 "fault": rng.choice([None, None, "close_primary"]), "fault_at": rng.randint(0, N - 1),
                 "yields": [rng.choice([0, 0, 1, 3, 10]) for _ in range(N + TAIL + 3)],
                 "order": [rng.random() < 0.5 for _ in range(N + TAIL + 3)],
@@ -254,17 +254,18 @@ async def _drive_b(case: dict[str, Any], out: dict[str, Any]) -> None:
     PRIMARY = 3
     formula_cls: Any = PVPowerFormula
     wanted_metric = "ACTIVE_POWER"
-    if case.get("topo") in ("single-grid-meter", "single-grid-meter-reactive"):
-        # grid -> meter 2 -> PV inverters 4, 5: the only grid successor is a meter over devices of one kind; the grid
-        # power formula reads that meter and falls back to the inverters
+    if case.get("topo") in ("grid-successor-meters", "grid-successor-meters-reactive"):
+        # no grid meter: grid -> {PV meter 3 -> inverters 4, 5 ; PV meter 6 -> inverter 7}. The grid power formula is the
+        # sum of the grid's successors, each dedicated meter with its inverters as fallback. (A *grid meter* has no
+        # fallback: it also measures loads without a meter of their own, see DESIGN 8.2.)
         from frequenz.sdk.timeseries.formula_engine._formula_generators import GridPowerFormula
 
-        comps = [Component(1, C.GRID), Component(2, C.METER), Component(4, C.INVERTER, InverterType.SOLAR),
-                 Component(5, C.INVERTER, InverterType.SOLAR)]
-        conns = [Connection(1, 2), Connection(2, 4), Connection(2, 5)]
-        PRIMARY = 2
+        comps = [Component(1, C.GRID), Component(3, C.METER), Component(6, C.METER),
+                 Component(4, C.INVERTER, InverterType.SOLAR), Component(5, C.INVERTER, InverterType.SOLAR),
+                 Component(7, C.INVERTER, InverterType.SOLAR)]
+        conns = [Connection(1, 3), Connection(1, 6), Connection(3, 4), Connection(3, 5), Connection(6, 7)]
         formula_cls = GridPowerFormula
-        if case["topo"] == "single-grid-meter-reactive":
+        if case["topo"] == "grid-successor-meters-reactive":
             from frequenz.sdk.timeseries.formula_engine._formula_generators import \
                 GridReactivePowerFormula
 
